@@ -14,6 +14,7 @@
  R7 flags      a flag that decides a diagnostic inside a loop is re-assigned in that loop
  R8 nesting    every nested statement is resolved unless an error was already reported for its guard
  R9 renames    a pending USE/REFERENCE item is matched under the key it is later stored under (AS names)
+ R10 request   a look-up whose caller passed NULL for the optional `search subtypes too` request passes NULL on
 """
 from engines import init_rows, str_of, known_facts, calls_in, peval
 from ir import walk, strip, expr_str, access_path
@@ -648,6 +649,59 @@ def r9(prog, res):
     res.floor("R9", "name comparisons on pending USE/REFERENCE items", n, 1)
 
 
+def r10_request_respected(prog, res):
+    """A look-up that was not asked to search subtypes must not search them.  `mode` parameters: a pointer parameter of a search
+    function that the function tests for NULL to guard further (recursive) search calls.  For every function W that has an
+    optional pointer parameter p and calls such a search function: with p == NULL (three-valued walk of W's CFG) every
+    reachable call passes NULL for the mode parameter.  Otherwise an unqualified reference resolves to an attribute that only
+    a subtype declares, and an undefined reference is accepted."""
+    from nullness import calls_under_null
+    from engines import call_args as _args, is_null_const
+    # mode parameters: if( p ) { ... recursive call ... }
+    modes = {}
+    for g in prog.all_functions():
+        if g.component != "express" or not g.params:
+            continue
+        for i, p_ in enumerate(g.params):
+            if "*" not in (g.tyname(p_["t"]) if isinstance(p_.get("t"), int) else ""):
+                continue
+            for x in g.walk():
+                if x["k"] == "If" and strip(x["ch"][0]) is not None and strip(x["ch"][0])["k"] == "Ref" and strip(x["ch"][0]).get("d") == p_["d"]:
+                    if any(y["k"] == "Call" and y.get("fk") == g.key for y in walk(x["ch"][1])):
+                        modes[(g.key, i)] = (g.name, p_["n"], g.where(x))
+    res.info["r10_mode_parameters"] = {"%s(%s)" % (v[0], v[1]): v[2] for v in modes.values()}
+    res.floor("R10.request_respected", "search functions with a NULL-switched search mode", len(modes), 1)
+    n = 0
+    for w in prog.all_functions():
+        if w.component != "express" or not w.params or w.cfg is None:
+            continue
+        sites = [c for c in w.calls() if any(k[0] == c.get("fk") for k in modes) and c.get("fk") != w.key]
+        if not sites:
+            continue
+        for pi, p_ in enumerate(w.params):
+            if "*" not in (w.tyname(p_["t"]) if isinstance(p_.get("t"), int) else ""):
+                continue
+            # is p an optional request?  some caller passes a null constant for it
+            optional = any(len(_args(c)) > pi and is_null_const(_args(c)[pi]) for g in prog.all_functions() for c in g.calls() if c.get("fk") == w.key)
+            if not optional:
+                continue
+            reach = calls_under_null(w, p_["d"])
+            n += 1
+            bad = None
+            for c in reach:
+                for (gk, mi), (gname, pname, _) in modes.items():
+                    if c.get("fk") == gk:
+                        a = _args(c)
+                        if mi < len(a) and not is_null_const(a[mi]) and not (strip(a[mi]) is not None and strip(a[mi]).get("d") == p_["d"]):
+                            bad = (c, gname, pname, expr_str(a[mi]))
+            res.add("R10.request_respected", "R10|%s|%s|%s" % (w.relfile(), w.name, p_["n"]), w.where(bad[0]) if bad else w.where(), bad is None,
+                    "when `%s` is NULL every search call made by %s passes NULL for the search-mode parameter" % (p_["n"], w.name) if bad is None else
+                    "when the caller passes NULL for `%s` (it did not ask for the extended search), %s still calls %s with `%s` = %s: the look-up "
+                    "also searches subtypes, so a name that only a subtype declares resolves instead of being reported as undefined"
+                    % (p_["n"], w.name, bad[1], bad[2], bad[3]))
+    res.floor("R10.request_respected", "wrappers with an optional request parameter", n, 1)
+
+
 def run(prog, res, tier):
     t = c20.table(prog, res)
     if t is None:
@@ -662,6 +716,7 @@ def run(prog, res, tier):
     r7(prog, res)
     r8(prog, res)
     r9(prog, res)
+    r10_request_respected(prog, res)
     try:
         from rules import c04_lookup
         c04_lookup.run(prog, res, tier)
